@@ -50,10 +50,58 @@ def gen_cases(tier, seed):
                "fs": "tmpfs" if r.random() < 0.2 else "ext4", "sched": r.choice(["free", "pct"]), "sseed": r.randrange(1 << 30),
                # verbose logging whose output cannot be written (full disk behind a redirection, reader gone): the mode's contract is unchanged
                "logfail": r.choice([None, None, None, None, None, "stdout", "stderr", "both"]), "verbose": r.choice(["-v", "-vv", "-vvv"])}
+    for path in [p_ for p_ in ("/proc/version", "/proc/crypto") if os.path.exists(p_)]:
+        for driver in ("parfile", "parblock"):
+            for mode, spelled in (("auto", None), ("auto", "auto"), ("never", "never"), ("always", "always")):
+                yield {"unsized": path, "driver": driver, "mode": mode, "fs": "ext4",
+                       "args": ["--driver", driver, "-w", "2"] + (["--reflink", spelled] if spelled else []) + [path, "copy"]}
+
+
+def run_unsized(case, res):
+    """A source on procfs (length unknown, no clone possible, no fsync either): the modes keep their contract there too."""
+    with core.Sandbox(case["fs"], "c15") as sb:
+        root = sb.root
+        run = core.run_xcp(sb, case["args"], {"log_mode": "full", "rules": []})
+        if run.verdict != "exited":
+            res["inconc"].append("run-" + run.verdict)
+            return res
+        mode = case["mode"]
+        tag = "driver=%s mode=%s source=%s exit=%d" % (case["driver"], mode, case["unsized"], run.status)
+        sig0 = "%s:%s:unsized-source" % (case["driver"], mode)
+        clones = [ent for ent, ex in core.pairs(run.events) if ent["sys"] == "ioctl" and ent["a"][1] in (core.FICLONE, 0x4020940d)]
+        res["counters"]["clone-requests-seen"] = len(clones)
+        got = None
+        try:
+            got = open(os.path.join(root, "copy"), "rb").read()
+        except OSError:
+            pass
+        want = open(case["unsized"], "rb").read()
+        same = got is not None and len(got) == len(want) and got[:512] == want[:512]
+        if mode == "never":
+            if clones:
+                res["viol"].append({"sig": sig0 + ":clone-issued", "what": "--reflink=never but %d clone request(s) were issued; %s" % (len(clones), tag)})
+            if not run.exit0:
+                res["viol"].append({"sig": sig0 + ":never-failed", "what": "--reflink=never must copy the bytes: %s; %s" % (run.stderr[-200:], tag)})
+        elif mode == "always":
+            if run.exit0:
+                res["viol"].append({"sig": sig0 + ":exit0-although-unsupported", "what": "--reflink=always from procfs cannot clone, yet exit 0; %s" % tag})
+        else:
+            if not run.exit0:
+                res["viol"].append({"sig": sig0 + ":auto-did-not-fall-back", "what": "--reflink=auto with cloning unavailable must fall back and exit 0: %s; %s" % (run.stderr[-200:], tag)})
+            elif not clones:
+                res["viol"].append({"sig": sig0 + ":no-clone-attempt", "what": "--reflink=auto exited 0 but never tried to clone; %s" % tag})
+        if run.exit0 and not same:
+            res["viol"].append({"sig": sig0 + ":bytes", "what": "exit 0 but the copy has %s bytes, the source %d; %s" % ("no" if got is None else len(got), len(want), tag)})
+        res["counters"]["unsized-source-runs"] = 1
+        res["counters"]["exit0" if run.exit0 else "nonzero"] = 1
+        res["evals"].append({"key": [case["driver"], mode, "unsized-source", "exit0" if run.exit0 else "nonzero"], "sample": {"args": case["args"], "exit": run.status, "clone_requests": len(clones)}})
+    return res
 
 
 def run_case(case):
     res = {"evals": [], "viol": [], "inconc": [], "counters": {}}
+    if case.get("unsized"):
+        return run_unsized(case, res)
     with core.Sandbox(case["fs"], "c15") as sb:
         root = sb.root
         tree.materialize(root, case["spec"])
